@@ -16,6 +16,9 @@ DATATYPES = [
     XSD + "integer", XSD + "string", XSD + "date", "http://ex.org/dt#custom", "urn:dt",
     XSD + "double", XSD + "boolean", "http://ex.org/dt/other", "dtnosep", XSD + "anyURI",
 ]
+NONCANONICAL = [("01", "integer"), ("+42", "integer"), ("-0", "integer"), ("1.50", "decimal"), ("010.0", "decimal"), ("1.0E0", "double"),
+                ("1e3", "double"), ("1", "boolean"), ("0", "boolean"), ("2020-01-01T00:00:00Z", "dateTime"), ("1.0", "float"),
+                ("007", "nonNegativeInteger"), (" 5 ", "int"), ("+1", "long")]
 LANGS = ["en", "en-GB", "de", "pl", "x-private", "EN-us"]
 LEXES = ["", "a", "hello world", "42", "2020-01-01", "zażółć", "\x00", "true", "1.5", "x" * 60, "\n\t\"'\\", "0", "false", "0.0", "01", "1E+3"]
 LABELS = ["b0", "b1", "", "x", "ü", "N" * 30, "b 2"]
@@ -38,7 +41,9 @@ def literal(rdflib_safe: bool = False):
     dts = st.sampled_from(DATATYPES) if rdflib_safe else st.one_of(
         st.sampled_from(DATATYPES), st.text(min_size=1, max_size=16))
     typed = st.builds(lambda x, d: ["lit", x, None, d], lex, dts)
-    return st.one_of(plain, lang, typed, typed)
+    # valid but non-canonical lexical forms of the XSD types every RDF library knows how to "tidy up"
+    noncanon = st.sampled_from(NONCANONICAL).map(lambda p: ["lit", p[0], None, XSD + p[1]])
+    return st.one_of(plain, lang, typed, typed, noncanon)
 
 
 def quoted(depth: int):
